@@ -77,6 +77,10 @@ def run(spec):
         V.check('no_exception', False, ('constructor raised', type(ex).__name__, str(ex)[:200], traceback.format_exc()[-300:]))
     finally:
         Mon.cur = None
+    # online monitor of the directors: the update object a process returned is not changed afterwards
+    V.count('update_object_intact', sum(1 for ev in m.events if ev[0] == 'struct'))
+    for o in [o for o in m.online if o['oracle'] == 'update_object_intact'][:3]:
+        V.append({'oracle': o['oracle'], 'detail': o['detail'], 'mechanism': None})
     stats = {'struct_ops': 0, 'invocations': 0, 'phases': 0, 'inflight_changes': 0}
     if e is None:
         return {'viol': list(V), 'evals': V.evals, 'nontrivial': False}
